@@ -33,10 +33,31 @@ def check_wait_forms(ctx, fb, rule):
         if f.cfg is None:
             continue
         if f.qn in ('yaclib::Wait', 'yaclib::WaitFor', 'yaclib::WaitUntil'):
-            calls = [c for c in f.calls() if c['cn'] in ('yaclib::detail::WaitCore', 'yaclib::detail::WaitIterator')]
             key = 'R-WAITFORMS %s' % f.qn
+            outer = f
+            bad_hop = None
+            for _ in range(2):
+                calls = [c for c in f.calls() if c['cn'] in ('yaclib::detail::WaitCore', 'yaclib::detail::WaitIterator')]
+                if calls:
+                    break
+                # a forwarding helper (detail::WaitTimed(timeout, fs...)): every parameter handed on in order, the
+                # answer returned as is — then the helper is judged in the wrapper's place
+                hops = [c for c in f.calls() if c['cn'].startswith('yaclib::detail::') and
+                        fb.fn.get(c.get('ck')) is not None and fb.fn[c['ck']].cfg is not None]
+                if len(hops) != 1 or [_ref(f, a) for a in hops[0].get('args', [])] != list(f.params):
+                    break
+                if f.ret != 'void':
+                    rets = [x for x in f.own_nodes() if x['k'] == 'ReturnStmt' and x.get('ch')]
+                    if len(rets) != 1 or (_strip(f, rets[0]['ch'][0]) or {}).get('i') != hops[0]['i']:
+                        bad_hop = f
+                        break
+                f = fb.fn[hops[0]['ck']]
             n += 1
-            ctx.instance(rule, key + ' :: ' + f.full[:140], None)
+            ctx.instance(rule, key + ' :: ' + outer.full[:140], None)
+            if bad_hop is not None:
+                ctx.report(rule, key, bad_hop.where, 'the answer of the timed wait is not the answer of the wait core: '
+                           '"true" no longer means that every listed future is ready', 'instantiation: ' + outer.full[:300])
+                continue
             if len(calls) != 1:
                 ctx.broken('R-WAITFORMS: %s does not forward to exactly one WaitCore / WaitIterator call (%d)' % (
                     f.full[:120], len(calls)))
